@@ -5,7 +5,7 @@ CONSTANTS
   WriteNs = {2}
   ReadNs = {3}
   BlockSizes = {0}
-  DataMod = 1
+  DataMod = 13
   MaxOps = 5
   KeepHist = TRUE
 CONSTRAINT Bound
